@@ -10,13 +10,13 @@ open BioCantor.Spec.Qual (Str strLt strLe)
 theorem bind_eq_ok {α β : Type} {x : D α} {f : α → D β} {b : β} :
     (x >>= f) = Except.ok b ↔ ∃ a, x = Except.ok a ∧ f a = Except.ok b := by
   cases x with
-  | error e => exact ⟨fun h => by cases h, fun ⟨_, h, _⟩ => by cases h⟩
+  | error e => exact ⟨fun h => (by cases h), fun ⟨_, h, _⟩ => (by cases h)⟩
   | ok a => exact ⟨fun h => ⟨a, rfl, h⟩, fun ⟨a', h1, h2⟩ => by cases h1; exact h2⟩
 
 theorem map_eq_ok {α β : Type} {x : D α} {f : α → β} {b : β} :
     Except.map f x = Except.ok b ↔ ∃ a, x = Except.ok a ∧ f a = b := by
   cases x with
-  | error e => exact ⟨fun h => by cases h, fun ⟨_, h, _⟩ => by cases h⟩
+  | error e => exact ⟨fun h => (by cases h), fun ⟨_, h, _⟩ => (by cases h)⟩
   | ok a => exact ⟨fun h => ⟨a, rfl, by cases h; rfl⟩, fun ⟨a', h1, h2⟩ => by cases h1; rw [← h2]; rfl⟩
 
 theorem optInts_some {v : PyVal} {l : List Int} (h : optInts v = .ok (some l)) : l ≠ [] := by
@@ -154,5 +154,88 @@ theorem var_image_wf {d : PyVal} {o : VarObj} (h : varFromDict md5 d = .ok o) : 
 
 theorem var_import_stable {d : PyVal} {o : VarObj} (h : varFromDict md5 d = .ok o) :
     varFromDict md5 (varToDict o) = .ok o := var_roundtrip md5 o (var_image_wf md5 h)
+
+/-! ### collections -/
+
+theorem mapM_ok_all {α : Type} {f : PyVal → D α} {P : α → Prop} (hf : ∀ v a, f v = .ok a → P a) :
+    ∀ {l : List PyVal} {r : List α}, l.mapM f = .ok r → ∀ a ∈ r, P a
+  | [], r, h => by cases h; intro a ha; cases ha
+  | v :: vs, r, h => by
+    simp only [List.mapM_cons, bind_eq_ok] at h
+    obtain ⟨a, ha, as, has, heq⟩ := h
+    cases heq
+    intro x hx
+    rcases List.mem_cons.mp hx with rfl | hx
+    · exact hf v _ ha
+    · exact mapM_ok_all hf has x hx
+
+theorem mapM_ok_length {α : Type} {f : PyVal → D α} : ∀ {l : List PyVal} {r : List α}, l.mapM f = .ok r →
+    r.length = l.length
+  | [], r, h => by cases h; rfl
+  | v :: vs, r, h => by
+    simp only [List.mapM_cons, bind_eq_ok] at h
+    obtain ⟨a, _, as, has, heq⟩ := h
+    cases heq
+    simp [mapM_ok_length has]
+
+theorem gene_image_wf {cs : Int} {d : PyVal} {o : GeneObj} (h : geneFromDict md5 cs d = .ok o) : GeneWF o := by
+  simp only [geneFromDict, bind_eq_ok] at h
+  obtain ⟨_, _, _, _, txs, htx, _, _, gid, _, _, _, sym, _, _, _, ty, hty, _, _, lt, _, _, _, quals, _, _, _, sname, _,
+    _, _, sguid, _, _, _, guid, _, rest⟩ := h
+  by_cases he : txs.isEmpty = true
+  · simp [he] at rest; cases rest
+  · simp only [he, Bool.false_eq_true, if_false, bind_eq_ok] at rest
+    obtain ⟨g, _, heq⟩ := rest
+    cases heq
+    refine ⟨importQuals_wf _, optBiotype_wf hty, mapM_ok_all (fun v a ha => tx_image_wf md5 ha) htx, ?_⟩
+    intro hn; exact he (by simp only at hn; rw [hn]; rfl)
+
+theorem gene_import_stable {cs : Int} {d : PyVal} {o : GeneObj} (h : geneFromDict md5 cs d = .ok o) :
+    geneFromDict md5 cs (geneToDict o) = .ok o := gene_roundtrip md5 cs o (gene_image_wf md5 h)
+
+theorem fc_image_wf {cs : Int} {d : PyVal} {o : FcObj} (h : fcFromDict md5 cs d = .ok o) : FcWF o := by
+  simp only [fcFromDict, bind_eq_ok] at h
+  obtain ⟨_, _, _, _, fs, hfs, _, _, name, _, _, _, id, _, _, _, ct, _, _, _, lt, _, _, _, quals, _, _, _, sname, _,
+    _, _, sguid, _, _, _, guid, _, rest⟩ := h
+  by_cases he : fs.isEmpty = true
+  · simp [he] at rest; cases rest
+  · simp only [he, Bool.false_eq_true, if_false, bind_eq_ok] at rest
+    obtain ⟨g, _, heq⟩ := rest
+    cases heq
+    refine ⟨importQuals_wf _, mapM_ok_all (fun v a ha => feat_image_wf md5 ha) hfs, ?_⟩
+    intro hn; exact he (by simp only at hn; rw [hn]; rfl)
+
+theorem fc_import_stable {cs : Int} {d : PyVal} {o : FcObj} (h : fcFromDict md5 cs d = .ok o) :
+    fcFromDict md5 cs (fcToDict o) = .ok o := fc_roundtrip md5 cs o (fc_image_wf md5 h)
+
+theorem sortVars_pairwise (vs : List VarObj) : (sortVars vs).Pairwise fun a b => a.args.start ≤ b.args.start := by
+  have := List.pairwise_mergeSort (le := fun (a b : VarObj) => decide (a.args.start ≤ b.args.start))
+    (fun a b c h1 h2 => by simp only [decide_eq_true_eq] at *; omega)
+    (fun a b => by simp only [Bool.or_eq_true, decide_eq_true_eq]; omega) vs
+  exact this.imp fun h => by simpa using h
+
+theorem vc_image_wf {cs : Int} {d : PyVal} {o : VcObj} (h : vcFromDict md5 cs d = .ok o) : VcWF o := by
+  simp only [vcFromDict, bind_eq_ok] at h
+  obtain ⟨_, _, _, _, vs0, hvs, _, _, name, _, _, _, id, _, _, _, quals, _, _, _, sname, _,
+    _, _, sguid, _, _, _, guid, _, rest⟩ := h
+  by_cases he : vs0.isEmpty = true
+  · simp [he] at rest; cases rest
+  · simp only [he, Bool.false_eq_true, if_false, bind_eq_ok] at rest
+    obtain ⟨g, _, heq⟩ := rest
+    cases heq
+    have hperm : (sortVars vs0).Perm vs0 := List.mergeSort_perm _ _
+    refine ⟨importQuals_wf _, ?_, ?_, sortVars_pairwise vs0⟩
+    · intro t ht
+      exact mapM_ok_all (fun v a ha => var_image_wf md5 ha) hvs t (hperm.mem_iff.mp ht)
+    · intro hn
+      have hl := hperm.length_eq
+      simp only at hn
+      rw [hn] at hl
+      cases vs0 with
+      | nil => exact he rfl
+      | cons _ _ => simp at hl
+
+theorem vc_import_stable {cs : Int} {d : PyVal} {o : VcObj} (h : vcFromDict md5 cs d = .ok o) :
+    vcFromDict md5 cs (vcToDict o) = .ok o := vc_roundtrip md5 cs o (vc_image_wf md5 h)
 
 end BioCantor.Proofs.Dig
